@@ -20,6 +20,10 @@ CLAIMED = {
    text="Kernel-checked theorems over any commutative ring and all sizes: the amplitude specification (multiset expansion permS) equals the textbook Laplace permanent of the explicit submatrix U[t|s] (permR_permS); the model of Naive (_compute_submatrix + permanent, with its n=0 / n-differs special cases) equals it; the SLOS coefficient recursion times prod t! equals it (bunched inputs/outputs included); amplitudes vanish when photon numbers differ; pruning the SLOS state space by any FSMask-style mask (closed under removing a photon) leaves the values of kept states unchanged. Every engine of /repo (Naive, SLOS, SLAP, MPS at full bond dimension, Stepper) is compared on every run with the extracted specification on all output states of sampled (circuit, input) pairs, bulk order, exact mass 1, masks, white-box submatrix and SLOS coefficients.",
    note="All theorems closed under the global context. SLAP, MPS and the native SLOS layer / permanent_cx have no algorithmic model: they are compared with the proved specification only. Full-distribution normalisation for all n is checked exactly per instance (mass = 1 as rationals), not proved.",
    tech="Coq proof (Laplace permanent = multiset expansion = SLOS recursion; mask soundness) + extracted-spec differential correspondence on all engines"),
+ "C12": dict(cat="proof", ref="DESIGN.md §7 C12",
+   text="Kernel-checked theorems over any commutative ring with conjugation, every size, every flag combination and every oracle answer, with the numerical root finder as an oracle (a Section variable with its own state): one elimination step keeps (list matrix)*(residual) equal to the request before the forced u[n,j]=0 (cell_bookkeeping); a step at (n,j) keeps every zero already made and the residual of a completed elimination is lower triangular whatever the solver answered; a lower-triangular matrix with U U^dagger = 1 is diagonal with unit-modulus entries; the permutation vector handed to `permutation` is the row swap applied to the residual; the list holds only solver-made blocks on (n,n+1), swaps and phases inside [0,m); Circuit.inverse(v,h) on the list undoes the inverse_h/inverse_v pre-processing; hence, for an exact oracle, the returned circuit equals U with the phase layer and U up to a unit-modulus diagonal (right factor, left factor under inverse_h) without it. Per instance: every circuit returned by /repo on the stream (Haar, permutation, block-diagonal, diagonal, sparse matrices with exact zeros, sizes 2-6, universal and non-universal blocks, all flags) is read back and judged by the extracted proved checker (close_to / diag_equiv, eps = precision), and the elimination is replayed by the extracted model from the solver's recorded answers and compared item by item and as a matrix.",
+   note="All theorems closed under the global context. The numerical solver (scipy L-BFGS-B, sympy inverse) is an oracle: convergence is not proved, 'found within max_try' for universal blocks is a counted success rate (100 % required). Theorems about the final matrix assume an exact oracle and that component.inverse on the block is the adjoint (h) / flipped matrix (v); the driver tests that premise on the real block and reports blocks that violate it (open findings: BS carrying a phase).",
+   tech="Coq proof of the bookkeeping (oracle as Section variable) + proved result checker (translation validation) + extracted-model replay from the solver transcript"),
 }
 REASON_PENDING = "not yet built in this development (see DESIGN.md §10 for the build order); no check is claimed"
 
